@@ -126,67 +126,39 @@ MODES = {'ROUND': 'ROUND_HALF_UP', 'ROUNDUP': 'ROUND_UP', 'ROUNDDOWN': 'ROUND_DO
 
 
 def rule_2(ctx):
+    """Rounding directions, decided on values (the rounding family as the evaluator calls it; decimal arithmetic folded): at the
+    half-way and near-half-way points on both sides of zero ROUND goes away from zero, ROUNDUP away from zero, ROUNDDOWN toward
+    zero, INT toward minus infinity - at 0, 1 and -1 digits."""
+    from . import values as V
     mm = ctx.mod('xlfunctions.math')
-
-    rdef = mm.func('_round')
-    rparams = func_params(rdef)
-    canon = dict(zip(rparams, ['number', 'num_digits', '_rounding']))
-
-    def run(name, number):
+    table = {
+        'ROUND': [((1.5, 0), 2.0), ((-1.5, 0), -2.0), ((2.5, 0), 3.0), ((-2.5, 0), -3.0), ((1.4, 0), 1.0), ((-1.4, 0), -1.0), ((0.25, 1), 0.3),
+                  ((-0.25, 1), -0.3), ((15, -1), 20.0), ((-15, -1), -20.0), ((14.9, -1), 10.0), ((0, 0), 0.0)],
+        'ROUNDUP': [((1.1, 0), 2.0), ((-1.1, 0), -2.0), ((1.0, 0), 1.0), ((0.11, 1), 0.2), ((-0.11, 1), -0.2), ((11, -1), 20.0), ((-11, -1), -20.0), ((0, 0), 0.0)],
+        'ROUNDDOWN': [((1.9, 0), 1.0), ((-1.9, 0), -1.0), ((0.19, 1), 0.1), ((-0.19, 1), -0.1), ((19, -1), 10.0), ((-19, -1), -10.0), ((0, 0), 0.0)],
+        'INT': [((1.5,), 1.0), ((-1.5,), -2.0), ((-0.000000001,), -1.0), ((0,), 0.0), ((2,), 2.0), ((-2,), -2.0), ((0.999,), 0.0)],
+    }
+    for name, rows in table.items():
         f = _reg(ctx, name)
-        fn = f.node
-        seen = {}
-
-        def fake_round(*a, **kw):
-            b = dict(zip(['number', 'num_digits', '_rounding'], a))
-            for k_, v_ in kw.items():
-                b[canon.get(k_, k_)] = v_
-            seen.update(b)
-            return Opaque('rounded')
-        env = {}
-        for p in f.params:
-            if p.default is not None:
-                env[p.name] = ctx.fold(p.default, f.module)
-        env[func_params(fn)[0]] = number
-        if len(func_params(fn)) > 1:
-            env.setdefault(func_params(fn)[1], 0)
-        it = Interp(ctx.a, f.module, env, call_models={'pkg:xlfunctions.math:_round': fake_round}, scope_fn=fn)
-        out = it.run(fn.body)
-        if 'num_digits' not in seen and len(rdef.args.defaults) >= 2:
-            pass
-        return seen, out
-
-    for name, mode in MODES.items():
-        for x in (-1.5, 0, 1.5):
-            seen, out = run(name, x)
-            got = seen.get('_rounding')
-            ok = got == mode or (isinstance(got, Ref) and got.ref == f'ext:decimal.{mode}')
-            if name == 'ROUND' and '_rounding' not in seen:
-                # default of _round applies
-                d = mm.func('_round').args.defaults
-                got = ctx.fold(d[-1], mm) if d else None
-                ok = got == mode or (isinstance(got, Ref) and got.ref == f'ext:decimal.{mode}')
-            ctx.expect(ok, _reg(ctx, name).node, f'{name}({x}) rounds with {mode}', f'{name}({x}) reaches _round with {got}, expected decimal.{mode}')
-            ctx.expect(seen.get('number') == x, _reg(ctx, name).node, f'{name}({x}) rounds its own argument',
-                       f'{name} hands {seen.get("number")!r} to _round instead of its argument')
-    for x, mode in ((-1.5, 'ROUND_UP'), (-1e-9, 'ROUND_UP'), (0, 'ROUND_DOWN'), (1.5, 'ROUND_DOWN')):
-        seen, out = run('INT', x)
-        got = seen.get('_rounding')
-        ok = (got == mode or (isinstance(got, Ref) and got.ref == f'ext:decimal.{mode}')) and seen.get('num_digits') == 0
-        ctx.expect(ok, _reg(ctx, 'INT').node, f'INT({x}) rounds toward minus infinity ({mode}, 0 digits)',
-                   f'INT({x}) reaches _round with {got}, digits {seen.get("num_digits")!r}: not a rounding toward minus infinity')
+        for args, want in rows:
+            out = V.call(ctx, name, [V.num(a) for a in args])
+            got = V.norm(out.value) if out.end == 'return' else (out.end, V.norm(out.value))
+            if isinstance(got, tuple) and got and got[0] == 'Number':
+                got = got[1]
+            ctx.expect(isinstance(got, (int, float)) and not isinstance(got, bool) and got == want, f.node, f'{name}{args!r} rounds to {want}',
+                       f'{name}{args!r} gives {got!r}, expected {want!r} (ROUND: half away from zero; ROUNDUP: away from zero; ROUNDDOWN: toward zero; '
+                       'INT: toward minus infinity)')
     # _round itself, folded through the decimal module: shortest decimal representation of the float, the requested mode, the
     # digit count, and the process-wide decimal context untouched afterwards
     import decimal as _dec
-    rf = mm.func('_round')
-    p = func_params(rf)
+    rf = mm.funcs.get('_round') or _reg(ctx, 'ROUND').node
     before = (_dec.getcontext().rounding, _dec.getcontext().prec)
     for args, want in (((2.675, 2, 'ROUND_HALF_UP'), 2.68), ((2.5, 0, 'ROUND_HALF_UP'), 3.0), ((-2.5, 0, 'ROUND_HALF_UP'), -3.0),
                        ((-2.5, 0, 'ROUND_DOWN'), -2.0), ((1.11, 1, 'ROUND_UP'), 1.2), ((-1.11, 1, 'ROUND_UP'), -1.2), ((1234.5, -2, 'ROUND_HALF_UP'), 1200.0),
                        ((0.125, 2, 'ROUND_HALF_UP'), 0.13), ((1.005, 2.0, 'ROUND_HALF_UP'), 1.01)):
-        it = Interp(ctx.a, mm, dict(zip(p, args)), inline_pkg=True)
+        it = Interp(ctx.a, mm, {'a0': args[0], 'a1': args[1], 'a2': args[2]}, inline_pkg=True)
         try:
-            out = it.run(rf.body)
+            out = it.run([ast.parse('return _round(a0, a1, a2)').body[0]])
         finally:
             after = (_dec.getcontext().rounding, _dec.getcontext().prec)
             _dec.getcontext().rounding, _dec.getcontext().prec = before
@@ -218,48 +190,39 @@ def rule_2(ctx):
 
 
 def rule_3(ctx):
-    for name in ('TRUNC', 'CEILING', 'FLOOR'):
+    """TRUNC, FLOOR, CEILING (and the ROUND family) on arguments whose binary representation is a hair off the decimal one: the
+    result is that of decimal arithmetic on the shortest decimal form of the float, not of scaling / dividing in binary."""
+    from . import values as V
+    rows = {
+        'TRUNC': [((1.13, 2), 1.13), ((2.675, 2), 2.67), ((-1.13, 2), -1.13), ((8.9,), 8.0), ((-8.9,), -8.0), ((1.15, 1), 1.1), ((0.29, 2), 0.29)],
+        'FLOOR': [((0.3, 0.1), 0.3), ((2.5, 1), 2.0), ((0.7, 0.1), 0.7), ((1.5, 0.5), 1.5), ((10, 3), 9.0)],
+        'CEILING': [((2.1, 0.1), 2.1), ((2.5, 1), 3.0), ((0.3, 0.1), 0.3), ((1.5, 0.5), 1.5), ((10, 3), 12.0)],
+    }
+    for name, cases in rows.items():
         f = _reg(ctx, name)
-        fn = ctx.inl(f.node)
-        params = set(func_params(fn))
-        deps = flow.Deps(fn)
-        bad = []
-        for b in walk_local(fn):
-            if isinstance(b, ast.BinOp) and isinstance(b.op, (ast.Mult, ast.Div)):
-                l_p = deps.params_reaching(b.left)
-                r_p = deps.params_reaching(b.right)
-                scaled = False
-                # number * 10**digits  /  number / significance  in binary floating point
-                def has_pow(e, depth=0):
-                    if any(isinstance(x, ast.BinOp) and isinstance(x.op, ast.Pow) for x in ast.walk(e)):
-                        return True
-                    if depth < 2:
-                        for nm in names_in(e):
-                            for a_ in walk_local(fn):
-                                if isinstance(a_, ast.Assign) and any(isinstance(t, ast.Name) and t.id == nm for t in a_.targets) \
-                                        and nm not in func_params(fn) and has_pow(a_.value, depth + 1):
-                                    return True
-                    return False
-                if has_pow(b.right) and l_p:
-                    scaled = True
-                if isinstance(b.op, ast.Div) and l_p and r_p and l_p != r_p:
-                    scaled = True
-                # feeding floor/ceil/trunc
-                par = b._parent
-                feeds = isinstance(par, ast.Call) and ctx.res.resolve(par.func, f.module) in ('ext:math.floor', 'ext:math.ceil', 'ext:math.trunc')
-                in_decimal = any(isinstance(a, ast.Call) and ctx.res.resolve(a.func, f.module) == 'ext:decimal.Decimal'
-                                 and isinstance(a.args[0], ast.Call) and isinstance(a.args[0].func, ast.Name) and a.args[0].func.id == 'str'
-                                 for a in walk_local(fn))
-                if scaled and feeds and not in_decimal:
-                    bad.append(ast.unparse(par)[:60])
+        wrong = []
+        for args, want in cases:
+            out = V.call(ctx, name, [V.num(a) for a in args])
+            got = V.norm(out.value) if out.end == 'return' else (out.end, V.norm(out.value))
+            if isinstance(got, tuple) and got and got[0] == 'Number':
+                got = got[1]
+            if not (isinstance(got, (int, float)) and not isinstance(got, bool) and abs(got - want) < 1e-12):
+                wrong.append(f'{name}{args!r} = {got!r} instead of {want!r}')
         fails = {'TRUNC': 'TRUNC(1.13,2) = 1.12', 'CEILING': 'CEILING(2.1,0.1) = 2.2', 'FLOOR': 'FLOOR(0.3,0.1) = 0.2'}[name]
-        ctx.expect(not bad, fn, f'{name} rounds in decimal, not on a binary-scaled value',
-                   f'{name} scales/divides its argument in binary floating point before floor/ceil/trunc ({bad}): {fails}')
-    for name in ('ROUND', 'ROUNDUP', 'ROUNDDOWN', 'INT'):
+        ctx.expect(not wrong, f.node, f'{name} rounds in decimal, not on a binary-scaled value',
+                   f'{name} scales/divides its argument in binary floating point before floor/ceil/trunc: ' + '; '.join(wrong[:3]) + f' ({fails})')
+    for name, cases in (('ROUND', [((2.675, 2), 2.68), ((1.005, 2), 1.01), ((0.285, 2), 0.29)]), ('ROUNDUP', [((1.1, 1), 1.1), ((2.3, 1), 2.3)]),
+                        ('ROUNDDOWN', [((1.1, 1), 1.1), ((2.3, 1), 2.3), ((0.29, 2), 0.29)]), ('INT', [((0.29 * 100,), 28.0), ((3.0,), 3.0)])):
         f = _reg(ctx, name)
-        ok = all(isinstance(r.value, ast.Call) and ctx.res.resolve(r.value.func, f.module) == 'pkg:xlfunctions.math:_round'
-                 for r in value_returns(f.node))
-        ctx.expect(ok, f.node, f'{name} delegates to the decimal _round', f'{name} does not round through the decimal helper _round')
+        wrong = []
+        for args, want in cases:
+            out = V.call(ctx, name, [V.num(a) for a in args])
+            got = V.norm(out.value) if out.end == 'return' else (out.end, V.norm(out.value))
+            if isinstance(got, tuple) and got and got[0] == 'Number':
+                got = got[1]
+            if not (isinstance(got, (int, float)) and not isinstance(got, bool) and got == want):
+                wrong.append(f'{name}{args!r} = {got!r} instead of {want!r}')
+        ctx.expect(not wrong, f.node, f'{name} delegates to the decimal _round', f'{name} does not round the shortest decimal form of its argument: ' + '; '.join(wrong))
     ctx.floor(7, 'rounding family')
 
 
